@@ -173,9 +173,9 @@ Definition dline_i (g : adict) (idv : aval) (l : loc) : adict :=
   aset k_ID idv (filter (differs (pop5 g)) (pop5 (loc_meta g l))).
 Definition gl_of (g d : adict) (l : loc) : gline :=
   mkLine (ocol k_type g) (sid_back (ocol k_seqid g)) (mkLoc (lstart l) (lstop l) (lstrand l) None)
-         (attrs_back d (ocol k_seqid g) (ocol k_source g) (oscore (loc_meta g l)) (ophase (loc_meta g l))).
+         (attrs_back d (ocol k_seqid g) (ocol k_source (loc_meta g l)) (oscore (loc_meta g l)) (ophase (loc_meta g l))).
 Definition text_of (g : adict) (l : loc) (a : str) : str :=
-  line_text (ocol k_seqid g) (ocol k_source g) (ocol k_type g) l (oscore (loc_meta g l)) (ophase (loc_meta g l)) a.
+  line_text (ocol k_seqid g) (ocol k_source (loc_meta g l)) (ocol k_type g) l (oscore (loc_meta g l)) (ophase (loc_meta g l)) a.
 
 Lemma locmeta_ok g l : mdict_ok g = true -> loc_ok l = true -> mdict_ok (loc_meta g l) = true.
 Proof.
@@ -186,18 +186,22 @@ Proof.
   rewrite forallb_forall in H1. apply H1. exact Hin.
 Qed.
 
+Lemma qcol_ok k g : aget k g = option_map AS (ocol k g) -> qcol k g = Some (colq (ocol k g)).
+Proof. intros E. unfold qcol. rewrite E. destruct (ocol k g); reflexivity. Qed.
+
 Lemma line_i g l d : mdict_ok g = true -> loc_ok l = true ->
   plain_entries d = true /\ keys_unique d = true /\ forallb (fun k => negb (in_keys k d)) col_keys = true ->
   exists a, attrstr d = Some a /\
-    write_line (colq (ocol k_seqid g)) (colq (ocol k_source g)) (sid_back (ocol k_type g)) l d (pop3 (loc_meta g l))
+    write_line_s (colq (ocol k_seqid g)) (sid_back (ocol k_type g)) l d (loc_meta g l)
       = Some (text_of g l a ++ nl) /\
     parse_line (text_of g l a) = Some (gl_of g d l).
 Proof.
   intros Mg Hl Hd. pose proof (locmeta_ok g l Mg Hl) as Mm.
-  destruct (m_seqid g Mg) as [_ C1]. destruct (m_source g Mg) as [_ C2]. destruct (m_type g Mg) as [_ C3].
+  destruct (m_seqid g Mg) as [_ C1]. destruct (m_source _ Mm) as [E2 C2]. destruct (m_type g Mg) as [_ C3].
   destruct (m_score _ Mm) as [S1 S2]. pose proof (m_phase _ Mm) as P1.
   unfold loc_ok in Hl. rewrite !andb_true_iff in Hl. destruct Hl as [[L1 L2] _]. apply Z.ltb_lt in L1.
-  apply (line_roundtrip (ocol k_seqid g) (ocol k_source g) (ocol k_type g) l d (pop3 (loc_meta g l))
+  unfold write_line_s. rewrite (qcol_ok _ _ E2).
+  apply (line_roundtrip (ocol k_seqid g) (ocol k_source (loc_meta g l)) (ocol k_type g) l d (pop3 (loc_meta g l))
            (oscore (loc_meta g l)) (ophase (loc_meta g l)) C1 C2 C3 (conj L1 L2) Hd).
   - split; [|exact S2]. rewrite aget_pop3 by reflexivity. exact S1.
   - rewrite aget_pop3 by reflexivity. exact P1.
@@ -231,14 +235,12 @@ Proof.
   unfold g0. rewrite copyattrs_last, fold_left_app. cbn [fold_left snd fst]. intros H.
   destruct (aget k_type (fmeta ft)) as [v|]; [|reflexivity]. rewrite aget_aset_same in H. discriminate H.
 Qed.
-Lemma qcol_ok k g : aget k g = option_map AS (ocol k g) -> qcol k g = Some (colq (ocol k g)).
-Proof. intros E. unfold qcol. rewrite E. destruct (ocol k g); reflexivity. Qed.
 
 Definition idv_of (g : adict) : aval := match aget k_ID g with Some v => v | None => AS random_id end.
 Definition line_opts (g : adict) (l0 : loc) (rest : list loc) : list (option str) :=
-  let c1 := colq (ocol k_seqid g) in let c2 := colq (ocol k_source g) in let c3 := sid_back (ocol k_type g) in
-  write_line c1 c2 c3 l0 (pop5 g) (pop3 g) ::
-  map (fun l => write_line c1 c2 c3 l (dline_i g (idv_of g) l) (pop3 (loc_meta g l))) rest.
+  let c1 := colq (ocol k_seqid g) in let c3 := sid_back (ocol k_type g) in
+  write_line_s c1 c3 l0 (pop5 g) g ::
+  map (fun l => write_line_s c1 c3 l (dline_i g (idv_of g) l) (loc_meta g l)) rest.
 
 Lemma write_feat_eq ft l0 rest : feat_ok ft = true -> normalised ft = true -> flocs ft = l0 :: rest ->
   write_feat ft = concat_opt (line_opts (g0 ft) l0 rest).
@@ -247,8 +249,8 @@ Proof.
   unfold write_feat. rewrite (merged_is_g0 ft W), Hl.
   unfold normalised in Nm. rewrite Hl in Nm.
   assert (loc_meta (g0 ft) l0 = g0 ft) as E0 by (unfold loc_meta; destruct (lgff l0); [discriminate Nm|reflexivity]).
-  rewrite E0. destruct (m_seqid _ Mg) as [E1 _]. destruct (m_source _ Mg) as [E2 _]. destruct (m_type _ Mg) as [E3 C3].
-  rewrite (qcol_ok _ _ E1), (qcol_ok _ _ E2), E3.
+  rewrite E0. destruct (m_seqid _ Mg) as [E1 _]. destruct (m_type _ Mg) as [E3 C3].
+  rewrite (qcol_ok _ _ E1), E3.
   destruct (ocol k_type (g0 ft)) as [t|] eqn:Ot; cbn [option_map].
   - destruct C3 as [_ [Nt _]]. assert (truthy (AS t) = true) as Tt by (destruct t; [congruence|reflexivity]).
     rewrite Tt. unfold line_opts, idv_of, dline_i, differs. rewrite Ot. cbn [py_str sid_back]. reflexivity.
@@ -311,7 +313,7 @@ Qed.
 Lemma text_shape g l d a : mdict_ok g = true -> loc_ok l = true -> plain_entries d = true -> attrstr d = Some a -> shape (text_of g l a).
 Proof.
   intros Mg Hl Pd Ha. pose proof (locmeta_ok g l Mg Hl) as Mm.
-  destruct (m_seqid g Mg) as [_ C1]. destruct (m_source g Mg) as [_ C2]. destruct (m_type g Mg) as [_ C3].
+  destruct (m_seqid g Mg) as [_ C1]. destruct (m_source _ Mm) as [_ C2]. destruct (m_type g Mg) as [_ C3].
   destruct (m_score _ Mm) as [_ S2]. destruct (attrstr_props d a Pd Ha) as [Na [_ Wa]].
   unfold loc_ok in Hl. rewrite !andb_true_iff in Hl. destruct Hl as [[_ L2] _].
   apply line_text_shape; assumption.
@@ -341,8 +343,8 @@ Proof.
   { intros NE. destruct (multi_has_id ft W) as [v Hv]; [rewrite Hl; destruct rest; [congruence|cbn; lia]|].
     unfold idv_of. rewrite Hv. reflexivity. }
   assert (exists ts, Forall2 (fun o t => o = Some (t ++ nl))
-             (map (fun l => write_line (colq (ocol k_seqid (g0 ft))) (colq (ocol k_source (g0 ft))) (sid_back (ocol k_type (g0 ft)))
-                                       l (dline_i (g0 ft) (idv_of (g0 ft)) l) (pop3 (loc_meta (g0 ft) l))) rest) ts /\
+             (map (fun l => write_line_s (colq (ocol k_seqid (g0 ft))) (sid_back (ocol k_type (g0 ft)))
+                                         l (dline_i (g0 ft) (idv_of (g0 ft)) l) (loc_meta (g0 ft) l)) rest) ts /\
            Forall2 line_ok ts (map (fun l => gl_of (g0 ft) (dline_i (g0 ft) (idv_of (g0 ft)) l) l) rest)) as [ts [F1 F2]].
   { clear Hl. induction rest as [|l r IH]; [exists []; split; constructor|].
     cbn [forallb] in Hrest. apply andb_prop in Hrest. destruct Hrest as [Hl1 Hr].
